@@ -349,21 +349,25 @@ Definition dateadd_impl (z n : Z) (unit : ind) : Z :=
   | IM => add_months z n | IQ => add_months z (n * 3) | IS => add_months z (n * 6) | IA => add_months z (12 * n)
   end.
 
-(* vtl_time_agg_date: YEAR/MONTH/QUARTER/ISOYEAR/WEEK/DAYOFYEAR of DuckDB = Calendar *)
-Definition time_agg_date_impl (z : Z) (target : ind) : period :=
+(* vtl_time_agg_date: YEAR/MONTH/QUARTER/ISOYEAR/WEEK/DAYOFYEAR of DuckDB = Calendar; c = civil_from_days z (shared by the targets) *)
+Definition time_agg_date_of (c : Z * Z * Z) (z : Z) (target : ind) : period :=
+  let '(y, m, _) := c in
   match target with
-  | IA => mkP (year_of z) IA 1
-  | IS => mkP (year_of z) IS (Z.quot (month_of z - 1) 6 + 1)
-  | IQ => mkP (year_of z) IQ ((month_of z - 1) / 3 + 1)
-  | IM => mkP (year_of z) IM (month_of z)
+  | IA => mkP y IA 1
+  | IS => mkP y IS (Z.quot (m - 1) 6 + 1)
+  | IQ => mkP y IQ ((m - 1) / 3 + 1)
+  | IM => mkP y IM m
   | IW => mkP (iso_year_of z) IW (iso_week_of z)
-  | ID => mkP (year_of z) ID (doy_of z)
+  | ID => mkP y ID (z - jan1 y + 1)
   end.
+Definition time_agg_date_impl (z : Z) (target : ind) : period := time_agg_date_of (civil_from_days z) z target.
 Inductive agg_res := AggOk (p : period) | AggFiner | AggRaw.
-Definition time_agg_tp_impl (p : period) (target : ind) : agg_res :=
+(* vtl_time_agg_tp; e = vtl_tp_end_date(p) (shared by the targets) *)
+Definition time_agg_of_end (e : option Z) (p : period) (target : ind) : agg_res :=
   if rank target <? rank (p_ind p) then AggFiner
   else if ind_eqb (p_ind p) target then AggOk p
-  else match end_date_impl p with Some z => AggOk (time_agg_date_impl z target) | None => AggRaw end.
+  else match e with Some z => AggOk (time_agg_date_impl z target) | None => AggRaw end.
+Definition time_agg_tp_impl (p : period) (target : ind) : agg_res := time_agg_of_end (end_date_impl p) p target.
 
 (* ------------------------------------------------------------------ init.sql: strings *)
 Inductive sres := SOk (s : string) | SNull | SErr.
@@ -651,10 +655,15 @@ Definition enc_agg (r : agg_res) : Z := match r with AggOk q => enc_p q | AggFin
 Definition static_max (i : ind) : Z := match i with IA => 1 | IS => 2 | IQ => 4 | IM => 12 | IW => 53 | ID => 366 end.
 
 (* scalar macros on one period (also on week 53 / day 366 of years that do not have them: the engine accepts them) *)
+Definition dayofyear_of_end (e : option Z) (p : period) : option Z :=
+  match p_ind p with ID => Some (p_num p) | _ => option_map doy_of e end.
+(* e = end_date_impl p is computed once: dayofmonth_impl p = option_map day_of e, dayofyear_impl p = dayofyear_of_end e p,
+   time_agg_tp_impl p t = time_agg_of_end e p t by unfolding (PeriodP.tie_scalar_row_unfold) *)
 Definition tie_scalar_row (p : period) : list Z :=
-  [if period_valid p then 1 else 0; enc_day (start_date_impl p); enc_day (end_date_impl p);
-   enc_num (getmonth_impl p); enc_num (dayofmonth_impl p); enc_num (dayofyear_impl p)]
-  ++ map (fun t => enc_agg (time_agg_tp_impl p t)) all_ind ++ [enc_p (next_impl p)].
+  let e := end_date_impl p in
+  [if period_valid p then 1 else 0; enc_day (start_date_impl p); enc_day e;
+   enc_num (getmonth_impl p); enc_num (option_map day_of e); enc_num (dayofyear_of_end e p)]
+  ++ map (fun t => enc_agg (time_agg_of_end e p t)) all_ind ++ [enc_p (next_impl p)].
 Definition tie_scalar_rows (i : ind) (y : Z) : list (list Z) :=
   map (fun n => tie_scalar_row (mkP y i n)) (zrange 1 (static_max i)).
 
@@ -664,11 +673,18 @@ Definition tie_shift_rows (i : ind) (y : Z) (ns : list Z) : list (list Z) :=
   map (fun n => tie_shift_row (mkP y i n) ns) (zrange 1 (static_max i)).
 (* where the macro leaves the calendar: valid periods whose macro shift differs from the calendar shift,
    encoded (num * 1000 + n + 500) * 10^7 + calendar result *)
+(* A/S/Q/M and the W/D shifts that stay within 1..52 / 1..365 of the year are proved equal (C08_macro_shift_partial,
+   C08_macro_shift_within_year): only the remaining pairs are evaluated *)
 Definition tie_shift_diff (i : ind) (y : Z) (ns : list Z) : list Z :=
-  flat_map (fun num => let p := mkP y i num in
-    flat_map (fun n => if period_eqb (shift_impl p n) (shift p n) then []
-                       else [(num * 1000 + n + 500) * 10000000 + enc_p (shift p n)]) ns)
-    (zrange 1 (periods_in_year i y)).
+  match i with
+  | IW | ID =>
+    flat_map (fun num => let p := mkP y i num in
+      flat_map (fun n => if (1 <=? num + n) && (num + n <=? period_limit_impl i) then []
+                         else if period_eqb (shift_impl p n) (shift p n) then []
+                         else [(num * 1000 + n + 500) * 10000000 + enc_p (shift p n)]) ns)
+      (zrange 1 (periods_in_year i y))
+  | _ => []
+  end.
 (* same for the step used by fill_time_series *)
 Definition tie_next_diff (i : ind) (y : Z) : list Z :=
   flat_map (fun num => let p := mkP y i num in
@@ -680,17 +696,18 @@ Definition tie_period_fp (i : ind) (y : Z) (ns : list Z) : list Z :=
   ++ tie_next_diff i y ++ [-1] ++ tie_shift_diff i y ns.
 
 (* DuckDB date builtins against Calendar, one row per day of year y; vtl_time_agg_date; vtl_dateadd for the shifts ns *)
-Definition tie_calendar_row (ns : list Z) (z : Z) : list Z :=
-  let '(y, m, d) := civil_from_days z in
+Definition tie_calendar_row (ns : list Z) (us : list ind) (z : Z) : list Z :=
+  let c := civil_from_days z in
+  let '(y, m, d) := c in
   [z + 1000000; y; m; d; z - jan1 y + 1; iso_year_of z; iso_week_of z; iso_dow z;
    last_day_of_month y m + 1000000; (m - 1) / 3 + 1]
-  ++ map (fun t => enc_p (time_agg_date_impl z t)) all_ind
-  ++ flat_map (fun n => map (fun u => dateadd_impl z n u + 1000000) all_ind) ns.
-Definition tie_calendar_rows (y : Z) (ns : list Z) : list (list Z) :=
-  map (tie_calendar_row ns) (zrange (jan1 y) (days_in_year y)).
-Definition tie_calendar_fp (y : Z) (ns : list Z) : list Z :=
+  ++ map (fun t => enc_p (time_agg_date_of c z t)) all_ind
+  ++ flat_map (fun n => map (fun u => dateadd_impl z n u + 1000000) us) ns.
+Definition tie_calendar_rows (y : Z) (ns : list Z) (us : list ind) : list (list Z) :=
+  map (tie_calendar_row ns us) (zrange (jan1 y) (days_in_year y)).
+Definition tie_calendar_fp (y : Z) (ns : list Z) (us : list ind) : list Z :=
   [if is_leap y then 1 else 0; days_in_year y; weeks_in_year y; jan1 y + 1000000; week1_monday y + 1000000;
-   fpz (List.concat (tie_calendar_rows y ns))].
+   fpz (List.concat (tie_calendar_rows y ns us))].
 
 (* strings *)
 Definition sres_str (r : sres) : string := match r with SOk s => s | SNull => "~NULL" | SErr => "~ERR" end.
@@ -736,7 +753,8 @@ Definition k_agg (t : ind) (ps : list period) : list Z :=
   map (fun p => match time_agg t p with Some q => enc_p q | None => -1 end) ps.
 Definition enc_date (z : Z) : Z := let '(y, m, d) := civil_from_days z in y * 10000 + m * 100 + d.
 Definition k_date_scalar (zs : list Z) : list Z := flat_map (fun z => [year_of z; month_of z; day_of z; doy_of z]) zs.
-Definition k_date_agg (t : ind) (zs : list Z) : list Z := map (fun z => enc_p (period_of_date t z)) zs.
+Definition k_date_agg (t : ind) (last : bool) (zs : list Z) : list Z :=
+  map (fun z => let q := period_of_date t z in enc_date (if last then end_date q else start_date q)) zs.
 Definition k_dateadd (n : Z) (u : ind) (zs : list Z) : list Z := map (fun z => enc_date (dateadd z n u)) zs.
 Definition k_tp_dateadd (n : Z) (u : ind) (ps : list period) : list Z := map (fun p => enc_date (dateadd (end_date p) n u)) ps.
 Definition k_datediff (ps qs : list period) : list Z := map (fun pq => datediff (fst pq) (snd pq)) (combine ps qs).
